@@ -35,6 +35,7 @@ type Solver struct {
 	out       *bufio.Reader
 	gen       int32
 	defs      int
+	qsince   int
 	bin       string
 	args      []string
 	timeoutMs int
@@ -46,6 +47,7 @@ type Solver struct {
 	NUnknown  int
 	Errors    int
 	SolveTime time.Duration
+	ModelTime time.Duration
 	declVars  []*Term
 	sb        strings.Builder
 }
@@ -75,6 +77,7 @@ func NewSolver(ts *TermStore, kind string, timeoutMs int) *Solver {
 func (s *Solver) start() {
 	s.gen++
 	s.defs = 0
+	s.qsince = 0
 	s.declVars = nil
 	s.cmd = exec.Command(s.bin, s.args...)
 	var err error
@@ -104,6 +107,21 @@ func (s *Solver) Close() {
 		s.cmd.Wait()
 		s.cmd = nil
 	}
+}
+
+// softReset clears the solver state (accumulated bit-blasted terms make
+// model construction slow) without paying for a new process.
+func (s *Solver) softReset() {
+	if s.bin == "cvc5" {
+		s.restart()
+		return
+	}
+	s.gen++
+	s.defs = 0
+	s.qsince = 0
+	s.declVars = nil
+	s.send("(reset)\n(set-option :print-success false)\n(set-option :produce-models true)\n(set-logic QF_BV)\n")
+	s.send(fmt.Sprintf("(set-option :timeout %d)\n", s.timeoutMs))
 }
 
 func (s *Solver) restart() {
@@ -166,8 +184,8 @@ func (s *Solver) define(t *Term) {
 // Check decides satisfiability of the conjunction of lits. With wantModel the
 // model (values of all declared variables) is returned on sat.
 func (s *Solver) Check(lits []Lit, wantModel bool) (SatResult, map[string]uint64) {
-	if s.defs > 150000 {
-		s.restart()
+	if s.defs > 150000 || s.qsince > 100 {
+		s.softReset()
 	}
 	s.sb.Reset()
 	for _, l := range lits {
@@ -192,10 +210,18 @@ func (s *Solver) Check(lits []Lit, wantModel bool) (SatResult, map[string]uint64
 	}
 	s.sb.WriteString("))\n")
 	s.Queries++
+	s.qsince++
 	t0 := time.Now()
 	s.send(s.sb.String())
 	line := s.readLine()
-	s.SolveTime += time.Since(t0)
+	dt := time.Since(t0)
+	s.SolveTime += dt
+	if dt > 300*time.Millisecond && os.Getenv("GOSYM_SLOW") != "" {
+		fmt.Fprintf(os.Stderr, "gosym: slow query %.2fs (%d lits, %d defs since reset) -> %s\n", dt.Seconds(), len(lits), s.defs, line)
+		if f := os.Getenv("GOSYM_SLOW"); f != "1" {
+			os.WriteFile(f, []byte(s.sb.String()), 0o644)
+		}
+	}
 	var r SatResult
 	switch line {
 	case "sat":
@@ -214,7 +240,10 @@ func (s *Solver) Check(lits []Lit, wantModel bool) (SatResult, map[string]uint64
 		return Unknown, nil
 	}
 	if r == Sat && wantModel {
-		return r, s.model()
+		t1 := time.Now()
+		m := s.model()
+		s.ModelTime += time.Since(t1)
+		return r, m
 	}
 	return r, nil
 }
